@@ -141,9 +141,8 @@ func (h *Handler) FetchIQ(ctx context.Context, filter Query, iq stanza.IQ, s *xm
 			iq.Wrap(filter.TokenReader()),
 			&result,
 		)
-		if err != nil && iter.err != nil {
-			// Technically this is racey. I'm not sure that we care though as long as
-			// an error is set?
+		if err != nil && iter.err == nil {
+			// This happens before the iterator is told that the query has ended.
 			iter.err = err
 		}
 		iter.res = result
